@@ -120,12 +120,15 @@ UserLock(s) == <<"userLock", s>>
 CapsLock(s) == <<"capsLock", s>>
 StatesLock(u) == <<"statesLock", u>>
 DB(u) == <<"db", u>>
-Locks == {UsersLock} \cup ({"userLock", "capsLock"} \X Sessions) \cup ({"statesLock", "db"} \X (Users \cup {NoUser}))
+\* user.publishLock (fix 6fecf1e): held from the transaction that commits a change until its state updates have been handed
+\* to the states - by a command's stateDBWrite and by the update goroutine's userDBWrite
+PublishLock(u) == <<"publish", u>>
+Locks == {UsersLock} \cup ({"userLock", "capsLock"} \X Sessions) \cup ({"statesLock", "db", "publish"} \X (Users \cup {NoUser}))
 
 \* The lock hierarchy derived from the code (see LockOrder): a goroutine that holds a lock only acquires locks further right.
-\*   session.userLock < session.capsLock < backend.usersLock < db client lock < user.statesLock
+\*   session.userLock < session.capsLock < backend.usersLock < user.publishLock < db client lock < user.statesLock
 Rank(l) == CASE l[1] = "userLock" -> 1 [] l[1] = "capsLock" -> 2 [] l[1] = "usersLock" -> 3
-             [] l[1] = "db" -> 4 [] l[1] = "statesLock" -> 5
+             [] l[1] = "publish" -> 4 [] l[1] = "db" -> 5 [] l[1] = "statesLock" -> 6
 
 VARIABLES
   pc,         \* [G -> STRING]   "off" = not started, "end" = returned
@@ -196,14 +199,19 @@ UOf(s) == sstate[s]      \* the user a session works for
 EndPc(s) == IF cur[s] = "noop" THEN "H.fin" ELSE "H.cmd.ru"
 SecNext(s, after) ==    \* pcs that may follow position `after` ("start" | "R" | "W" | "Q") of the handler's program
   IF FreeSections THEN {"H.sec"}
-  ELSE CASE cur[s] = "sel"  -> (CASE after = "start" -> {"H.R.acq"} [] after = "R" -> {"H.Q.acq"} [] OTHER -> {EndPc(s)})
+  \* (stateDBWrite: publishLock around the committing and the publishing transaction - P ... Prel; flush and NOOP do not take it)
+  ELSE CASE cur[s] = "sel"  -> (CASE after = "start" -> {"H.R.acq"} [] after = "R" -> {"H.P.acq"} [] after = "P" -> {"H.Q.acq"}
+                                  [] after = "Q" -> {"H.P.rel"} [] OTHER -> {EndPc(s)})
          [] cur[s] = "noop" -> (CASE after = "start" -> {"H.R.acq"} [] after = "R" -> {"H.W.acq"} [] OTHER -> {EndPc(s)})
-         [] OTHER           -> (CASE after = "start" -> {"H.Q.acq"} [] OTHER -> {EndPc(s)})
+         [] OTHER           -> (CASE after = "start" -> {"H.P.acq"} [] after = "P" -> {"H.Q.acq"} [] after = "Q" -> {"H.P.rel"}
+                                  [] OTHER -> {EndPc(s)})
 
 \* the sections of one user.apply: bounded model: [db.Read]; db.Write; forState.  Trace validation: any sequence.
 UNext(after) ==
   IF FreeSections THEN {"U.sec"}
-  ELSE CASE after = "start" -> {"U.R.acq", "U.W.acq"} [] after = "R" -> {"U.W.acq"} [] after = "W" -> {"U.sl.acq"} [] OTHER -> {"U.sel"}
+  \* (userDBWrite: publishLock around db.Write and queueStateUpdate)
+  ELSE CASE after = "start" -> {"U.R.acq", "U.P.acq"} [] after = "R" -> {"U.P.acq"} [] after = "P" -> {"U.W.acq"}
+         [] after = "W" -> {"U.sl.acq"} [] after = "SL" -> {"U.P.rel"} [] OTHER -> {"U.sel"}
 
 AcqAt(g, p) ==
   LET k == g[1]  id == g[2] IN
@@ -218,6 +226,8 @@ AcqAt(g, p) ==
     [] k = "h" /\ p = "H.login.sl" -> {A(StatesLock(arg[g]), "X", {"H.login.new"})}
     \* handle.go:handleAuthenticatedCommand / handleSelectedCommand: userLock; s.state == nil -> ErrNotAuthenticated; then the sections
     [] k = "h" /\ p = "H.cmd.u" -> {A(UserLock(id), "X", IF UOf(id) = NoUser THEN {"H.cmd.ru"} ELSE SecNext(id, "start"))}
+    [] k = "h" /\ p = "H.P.acq" -> {A(PublishLock(UOf(id)), "X", SecNext(id, "P"))}
+    [] k = "upd" /\ p = "U.P.acq" -> {A(PublishLock(id), "X", UNext("P"))}
     [] k = "h" /\ p = "H.R.acq" -> {A(DB(UOf(id)), "R", {"H.R.rel"})}
     [] k = "h" /\ p = "H.W.acq" -> {A(DB(UOf(id)), "X", {"H.W.rel"})}
     [] k = "h" /\ p = "H.Q.acq" -> {A(DB(UOf(id)), "X", {"H.Q.sl"})}
@@ -272,6 +282,8 @@ RelAt(g, p) ==
     [] k = "h" /\ p = "H.login.ru" -> [l |-> UserLock(id), to |-> {"H.fin"}]
     [] k = "h" /\ p = "H.login.rul" -> [l |-> UsersLock, to |-> {"H.login.ev"}]
     [] k = "h" /\ p = "H.cmd.ru" -> [l |-> UserLock(id), to |-> {"H.fin"}]
+    [] k = "h" /\ p = "H.P.rel" -> [l |-> PublishLock(UOf(id)), to |-> SecNext(id, "Prel")]
+    [] k = "upd" /\ p = "U.P.rel" -> [l |-> PublishLock(id), to |-> UNext("Prel")]
     [] k = "h" /\ p = "H.R.rel" -> [l |-> DB(UOf(id)), to |-> SecNext(id, "R")]
     [] k = "h" /\ p = "H.W.rel" -> [l |-> DB(UOf(id)), to |-> SecNext(id, "W")]
     [] k = "h" /\ p = "H.Q.rel" -> [l |-> DB(UOf(id)), to |-> SecNext(id, "Q")]
